@@ -470,7 +470,7 @@ class BaseChannel:
             if configuration_issue_match:
                 configuration_issues = configuration_issue_match.group(1).decode()
                 msg += f", bad option(s): {configuration_issues}"
-        elif b"WARNING: UNPROTECTED PRIVATE KEY FILE!" in output:
+        elif b"warning: unprotected private key file!" in output.lower():
             msg = "Permissions for private key are too open, authentication failed!"
         elif b"could not resolve hostname" in output.lower():
             msg = "Could not resolve address for host"
